@@ -15,6 +15,7 @@ ContainerElement = (
     block.ListItem,
     block.Paragraph,  # Paragraphs contain inline elements
     block.Heading,  # Already handled, but include for completeness if structure changes
+    block.SetextHeading,  # A separate Marko class (not a Heading subclass), rendered as ATX
     inline.Emphasis,
     inline.StrongEmphasis,
     inline.Link,
@@ -30,6 +31,7 @@ ContainerElement = (
 InlineScope = (
     block.Paragraph,
     block.Heading,
+    block.SetextHeading,
     gfm_elements.TableCell,
 )
 
